@@ -137,18 +137,22 @@ def check_gls(st, backend, kind, start, what):
                     return out
         # contour (both free): points where the two-parameter profile has risen by n^2 = 1
         if len(free) == 2 and backend == "iminuit":
-            c = fit._fitter.contour("p1", "p2", sigma=1.0, numpoints=12)
-            if c is not None:
-                pts = np.asarray(c.xy_points, dtype=float)
-                if pts.shape[0] == 2:
-                    pts = pts.T
-                ci = np.linalg.inv(cov)
-                dq = pts - sol[None, :]
-                rise = np.einsum("ni,ij,nj->n", dq, ci, dq)
-                if not np.allclose(rise, 1.0, rtol=0.06, atol=0.06):
-                    out.append(("Definitions: 1-sigma contour points do not lie where the profile has risen by 1 %s" % tag,
-                                dict(rise=rise.tolist(), scenario=sc)))
-                    return out
+            for nsig in (1.0, 2.0):
+                c = fit._fitter.contour("p1", "p2", sigma=nsig, numpoints=12)
+                if c is not None:
+                    pts = np.asarray(c.xy_points, dtype=float)
+                    if pts.shape[0] == 2:
+                        pts = pts.T
+                    ci = np.linalg.inv(cov)
+                    dq = pts - sol[None, :]
+                    rise = np.einsum("ni,ij,nj->n", dq, ci, dq)
+                    if not np.allclose(rise, nsig ** 2, rtol=0.06, atol=0.06):
+                        out.append(("Definitions: %g-sigma contour points do not lie where the profile has risen by %g %s" % (nsig, nsig ** 2, tag),
+                                    dict(rise=rise.tolist(), scenario=sc)))
+                        return out
+                    if getattr(c, "sigma", nsig) != nsig:
+                        out.append(("Definitions: contour object reports another sigma than requested %s" % tag, dict(requested=nsig, reported=c.sigma)))
+                        return out
     return out
 
 
